@@ -144,8 +144,10 @@ haveArgs:
 				return f.dispatch(st, e, cl.Fn, cl.Recv, nil, args, sig)
 			}
 		}
-		c.note("dynamic call " + exprString(e.Fun) + " havocked")
-		return f.havocResults(st, sig)
+		// an unknown function value: a deterministic, side-effect free function of (value, arguments)
+		// (assumption A-PURE-CALLBACK, recorded)
+		c.note("dynamic call " + exprString(e.Fun) + " modelled as a pure function of its arguments")
+		return f.uninterpCall(st, "dyn", fv, args, sig)
 	}
 	return f.dispatch(st, e, cal.fn, recv, recvT, args, sig)
 }
@@ -320,6 +322,12 @@ func (f *Frame) dispatch(st *State, e *ast.CallExpr, fn *types.Func, recv *Term,
 	if m, ok := models[full]; ok {
 		return m(f, st, e, recv, args, sig)
 	}
+	for _, p := range pureIfacePrefixes {
+		if strings.HasPrefix(full, p) {
+			c.note("interface method " + shortFuncName(full) + " modelled as a pure function of (receiver, arguments)")
+			return f.uninterpCall(st, "ifc!"+shortFuncName(full), recv, args, sig)
+		}
+	}
 	if fn.Pkg() != nil {
 		for _, p := range silentPkgs {
 			if strings.HasPrefix(fn.Pkg().Path(), p) {
@@ -344,6 +352,33 @@ func (f *Frame) dispatch(st *State, e *ast.CallExpr, fn *types.Func, recv *Term,
 	}
 	return f.havocResults(st, sig)
 }
+
+// uninterpCall: results are uninterpreted functions of (callee identity, arguments).
+func (f *Frame) uninterpCall(st *State, prefix string, fv *Term, args []*Term, sig *types.Signature) []*Term {
+	c := f.c
+	var out []*Term
+	all := args
+	if fv != nil {
+		all = append([]*Term{fv}, args...)
+	}
+	sorts := make([]Sort, len(all))
+	key := prefix
+	for i, a := range all {
+		sorts[i] = a.Sort
+		key += "!" + strings.Trim(string(a.Sort), "|")
+	}
+	for i := 0; i < sig.Results().Len(); i++ {
+		t := sig.Results().At(i).Type()
+		rs := c.sortOf(t)
+		fn := c.declareFun(fmt.Sprintf("%s!r%d!%s", key, i, strings.Trim(string(rs), "|")), sorts, rs)
+		v := App(fn, rs, all...)
+		f.assumeWellFormed(st, v, t)
+		out = append(out, v)
+	}
+	return out
+}
+
+var pureIfacePrefixes = []string{consulMod + "/acl.Authorizer."}
 
 func ifaceMethodName(recvT types.Type, fn *types.Func) string {
 	t := types.Unalias(recvT)
